@@ -92,7 +92,9 @@ func (o *sessionTracker) RemoteLogin(rul common.RemoteUserLogin) error {
 	var found bool
 	var writeErr error
 	o.sessIDsToUsers.Iterate(func(asi string, u *user) bool {
-		if u.srcPID == rul.PID {
+		// Sessions that already have a login are skipped: a login with
+		// the same PID belongs to a later session of a reused PID.
+		if u.srcPID == rul.PID && !u.hasRUL {
 			if debugLogger != nil {
 				debugLogger.With(
 					"auditSessionID", asi,
@@ -107,7 +109,25 @@ func (o *sessionTracker) RemoteLogin(rul common.RemoteUserLogin) error {
 			u.setRemoteUserLoginInfo(rul)
 
 			found = true
+
+			// The session may have ended while its events were cached.
+			// In that case it must not outlive the flush, otherwise a
+			// later login with the same PID would be matched to it.
+			ended := false
+			for _, cachedEvent := range u.cached {
+				if cachedEvent.Type == auparse.AUDIT_CRED_DISP {
+					ended = true
+					break
+				}
+			}
+
 			writeErr = u.writeAndClearCache(o.eventWriter)
+
+			if ended {
+				// The lock is already held by Iterate.
+				o.sessIDsToUsers.DeleteUnsafe(asi)
+			}
+
 			// stop iteration
 			return false
 		}
